@@ -512,10 +512,59 @@ func c09R4(p *core.Program, r *core.Report) {
 				continue
 			}
 			n++
-			// the enclosing closure is passed to EnumerateLocalizables of a flow value; that flow must be a fresh copy
-			root := rootFn(fn)
-			key := core.FuncName(root) + "/localizable-writer " + prm.Name()
-			fresh := false
+			// the enclosing closure is passed to EnumerateLocalizables of a flow value; that flow must be a fresh copy.
+			// A named unexported helper that receives the writer as a parameter stands for its callers.
+			roots := map[*ssa.Function]bool{}
+			var up func(f *ssa.Function, w *ssa.Parameter, depth int) bool
+			up = func(f *ssa.Function, w *ssa.Parameter, depth int) bool {
+				if f.Parent() != nil {
+					roots[rootFn(f)] = true
+					return true
+				}
+				idx := -1
+				for i, fp := range f.Params {
+					if fp == w {
+						idx = i
+					}
+				}
+				sites := p.CallsTo(f)
+				if depth > 3 || idx < 0 || len(sites) == 0 || f.Object() == nil || f.Object().Exported() {
+					roots[f] = true
+					return true
+				}
+				for _, site := range sites {
+					if p.IsTestFile(site.Pos()) {
+						continue
+					}
+					a, ok := site.Common().Args[idx].(*ssa.Parameter)
+					if !ok {
+						roots[f] = true
+						return true
+					}
+					up(site.Caller, a, depth+1)
+				}
+				return true
+			}
+			up(fn, prm, 0)
+			key := core.FuncName(rootFn(fn)) + "/localizable-writer " + prm.Name()
+			fresh := len(roots) > 0
+			for root := range roots {
+				if !c09EnumeratesOnCopy(root) {
+					fresh = false
+				}
+			}
+			r.Check(fresh, "R4", key, p.Pos(cs.Pos()), "the flow whose localizable text is rewritten is a copy()", "a localizable-text writer is invoked on a flow that is not a fresh copy: the shared definition is edited in place")
+		}
+	}
+	r.Require("localizable_writer_calls", n, 1)
+	_ = token.ADD
+}
+
+// c09EnumeratesOnCopy: every EnumerateLocalizables call in root (and its closures) is on a value derived from copy()/clone().
+func c09EnumeratesOnCopy(root *ssa.Function) bool {
+	fresh, any := true, false
+	{
+		{
 			core.EachInstr(root, false, func(_ *ssa.Function, in ssa.Instruction) {
 				c, ok := in.(*ssa.Call)
 				if !ok {
@@ -536,19 +585,22 @@ func c09R4(p *core.Program, r *core.Report) {
 				} else {
 					recv = c.Call.Args[0]
 				}
+				any = true
+				onCopy := false
 				for v := range core.BackSlice(recv, nil) {
 					if cc2, ok := v.(*ssa.Call); ok {
 						if f := cc2.Call.StaticCallee(); f != nil && (f.Name() == "copy" || f.Name() == "clone" || f.Name() == "Clone") {
-							fresh = true
+							onCopy = true
 						}
 					}
 				}
+				if !onCopy {
+					fresh = false
+				}
 			})
-			r.Check(fresh, "R4", key, p.Pos(cs.Pos()), "the flow whose localizable text is rewritten is a copy()", "a localizable-text writer is invoked on a flow that is not a fresh copy: the shared definition is edited in place")
 		}
 	}
-	r.Require("localizable_writer_calls", n, 1)
-	_ = token.ADD
+	return fresh && any
 }
 
 // c09LockHeld returns "" when a mutex is held at `at` in fn: a Lock() dominates it and no explicit Unlock can reach it
